@@ -287,12 +287,14 @@ def stream_harness(name):
     T = table(True)[0]
     if name.startswith("StreamEncoder"):
         nwords = int(name.split("nwords=")[1][0])
+        gaps = "+idle_symbols" in name
         if nwords == 1:
             alpha = [d | (k << 8) for d, k in STREAMSYMS]
         else:
             alpha = [d0 | (d1 << 8) | (k0 << 16) | (k1 << 17) for (d0, k0), (d1, k1) in itertools.product(STREAMSYMS[:4], repeat=2)]
         return StreamHarness(name, lambda: c8.StreamEncoder(nwords), lambda H: EncModel(T, nwords, alpha), mode="free", alphabet=alpha,
-                             M=len(alpha), maxpkt=2, nparam=1, idle_garbage=True)
+                             M=len(alpha), maxpkt=2, nparam=1, idle_garbage=True,
+                             idle_values=[0x20, 0x0FC | (1 << 8)] if gaps else None)
     nwords = int(name.split("nwords=")[1][0])
     inv = {cw: sym for (sym, rd), (cw, dout) in T.items()}
     words = sorted({T[(s, rd)][0] for s in STREAMSYMS for rd in (0, 1)})
@@ -312,7 +314,7 @@ def configs(tier):
         c += [(f"multiword(nwords=2,lsb_first=False)/all268/part{p}of8", p, 8) for p in range(8)]
         c += [(f"multiword(nwords=2,lsb_first=True)/class24", 0, 1), ("multiword(nwords=4,lsb_first=True)/class6", 0, 1),
               ("multiword(nwords=4,lsb_first=False)/class8", 0, 1)]
-    c += [("StreamEncoder(nwords=1)",), ("StreamDecoder(nwords=1)",)]
+    c += [("StreamEncoder(nwords=1)",), ("StreamDecoder(nwords=1)",), ("StreamEncoder(nwords=1)+idle_symbols",)]
     if tier == "thorough":
         c += [("StreamEncoder(nwords=2)",), ("StreamDecoder(nwords=2)",)]
     return c
